@@ -321,13 +321,28 @@ class MindsDBLexer(Lexer):
 
     @_(r"'(?:\\.|[^'])*(?:''(?:\\.|[^'])*)*'")
     def QUOTE_STRING(self, t):
-        t.value = t.value.replace('\\"', '"').replace("\\'", "'").replace("''", "'")
+        t.value = "'" + self.unescape_string(t.value[1:-1], quote="'") + "'"
         return t
 
     @_(r'"(?:\\.|[^"])*"')
     def DQUOTE_STRING(self, t):
-        t.value = t.value.replace('\\"', '"').replace("\\'", "'")
+        t.value = '"' + self.unescape_string(t.value[1:-1], quote='"') + '"'
         return t
+
+    @staticmethod
+    def unescape_string(text, quote):
+        # text: content of the literal, without the surrounding quotes
+        # it is read once, from left to right: a backslash always pairs with the next character
+        def decode(m):
+            if m.group(0) == "''":
+                return "'"
+            if m.group(1) in ('"', "'", '\\'):
+                return m.group(1)
+            # not an escape sequence, keep as is
+            return m.group(0)
+
+        pattern = r"\\(.)|''" if quote == "'" else r"\\(.)"
+        return re.sub(pattern, decode, text)
 
     @_(r'\n+')
     def ignore_newline(self, t):
